@@ -235,7 +235,39 @@ def _as_given(case, spec):
 def _model_and_params(case, spec=None, removed=()):
     with warnings.catch_warnings():
         warnings.simplefilter("ignore")
-        model = G.build_model(_as_given(case, case["spec"] if spec is None else spec))
+        given = _as_given(case, case["spec"] if spec is None else spec)
+        from glotaran.model import Model
+        from glotaran.plugin_system.megacomplex_registration import get_megacomplex
+
+        py = G.to_python_spec(given)
+        if case.get("shared_definitions"):
+            # definitions that are equal are handed over as ONE object (a YAML anchor / alias, dict.fromkeys, a shared default):
+            # every label still gets its own item
+            for section, items in py.items():
+                if isinstance(items, dict):
+                    seen = []
+                    for label, item in list(items.items()):
+                        for other in seen:
+                            if isinstance(item, dict) and item == other:
+                                items[label] = other
+                                break
+                        else:
+                            seen.append(item)
+        before = copy.deepcopy(py)
+        types = []
+        for m in py["megacomplex"].values():
+            t = get_megacomplex(m["type"])
+            if t not in types:
+                types.append(t)
+        model = Model.create_class_from_megacomplexes(types)(**py)
+        check(py == before, "spec.mutated_by_model_construction", lambda: "the caller's specification was changed while the model was built")
+        given = py
+        for section, items in given.items():
+            if isinstance(items, dict) and hasattr(model, section) and isinstance(getattr(model, section), dict):
+                for label in items:
+                    it = getattr(model, section).get(label)
+                    if it is not None and hasattr(it, "label"):
+                        check(it.label == label, "spec.item_label_differs_from_its_key", lambda: f"{section}[{label!r}].label == {it.label!r}")
         params = G.build_parameters(case["params"], case["free"], removed=removed)
     return model, params
 
@@ -1113,7 +1145,7 @@ PROPERTY = Property(
     ),
     subs=[
         # fewer shards in the quick tier: every process that evaluates pays ~10 s of numba JIT once
-        Sub("valid", prop=prop_valid, strategy=lambda: G.models(), budget={"quick": 300, "thorough": 24000},
+        Sub("valid", prop=prop_valid, strategy=lambda: G.models().map(lambda c: {**c, "shared_definitions": c["mut_seed"] % 2 == 0}), budget={"quick": 300, "thorough": 24000},
             shards={"quick": 6, "thorough": 16},
             doc="unmutated model: valid, fill_item of every dataset, one optimize() evaluation, generate_parameters()"),
         Sub("item", prop=prop_item_refs, strategy=lambda: G.models(), budget={"quick": 320, "thorough": 24000},
